@@ -106,7 +106,17 @@ def run(repo: Repo, chk: Check):
         chk.judge("R07.b", key, ok, "a non-fall-through instruction is emitted, but not under the guard that selects the main region (fname == \"\")",
                   {"sites": [norm(s.call) for s in term]}, where)
 
-    # ------------------------------------------------------------ R07.c
+    chk.guarded(r07c, repo, chk)
+    chk.guarded(r07c_tail_kept, repo, chk)
+    chk.rule("R07.f", "an early return jumps to the end label of its own function: definition and reference of '<name>end' spell the module-qualified "
+                      "name the same way, so the jump cannot land in (or fall through to) another function's region (shared with R05.d)", floor=6)
+    from .shared import rule_function_labels
+    chk.guarded(rule_function_labels, repo, chk, "R07.f")
+
+
+# ---------------------------------------------------------------------- R07.c
+def r07c(repo: Repo, chk: Check, R="R07.c"):
+    g = repo.mod("generate_code")
     cf = g.func(f"{GEN_CLASS}.compile_function")
     chk.saw("generate_code", cf.qual)
     ccfg, crd = fn_ctx(cf)
@@ -116,7 +126,7 @@ def run(repo: Repo, chk: Check):
     wherec = f"{g.path}:{cf.lineno} in {cf.qual}"
     if not labels:
         raise AnalysisError("compile_function: definition of the '<name>end:' label not found")
-    chk.judge("R07.c", "generate_code:compile_function:a terminator follows the end label", bool(finals) and all(f.call.lineno > labels[0].call.lineno for f in finals),
+    chk.judge(R, "generate_code:compile_function:a terminator follows the end label", bool(finals) and all(f.call.lineno > labels[0].call.lineno for f in finals),
               "no non-fall-through instruction is added after the function's end label", None, wherec)
     for f in finals:
         ids = live_ids(ccfg, f.call)
@@ -127,7 +137,7 @@ def run(repo: Repo, chk: Check):
         while par is not None and not isinstance(par, ast.If):
             par = getattr(par, "parent", None)
         if par is None or enclosing_def(par) is not cf:
-            chk.ok("R07.c", "generate_code:compile_function:terminator is unconditional", None)
+            chk.ok(R, "generate_code:compile_function:terminator is unconditional", None)
             continue
         conj = par.test.values if isinstance(par.test, ast.BoolOp) and isinstance(par.test.op, ast.And) else [par.test]
         tid = live_ids(ccfg, par.test)[0]
@@ -139,7 +149,7 @@ def run(repo: Repo, chk: Check):
                 if isinstance(a, ast.Attribute) and a.attr in ("is_read", "can_inline"):
                     tg = o.tags(a.value, tid)
                     own = bool(tg) and all(x.startswith("param:") for x in tg)
-                    chk.judge("R07.c", "generate_code:compile_function:the final 'j ra' is decided by the call count of the function being compiled", own,
+                    chk.judge(R, "generate_code:compile_function:the final 'j ra' is decided by the call count of the function being compiled", own,
                               f"the condition of the final 'j ra' reads {norm(a)}, and on some path {norm(a.value)} is not the symbol of the function being compiled "
                               f"(it derives from {sorted(tg)}): the function can lose its 'j ra' because of another function's call count and fall into the next region",
                               {"origins": sorted(tg)}, wherec)
@@ -180,6 +190,54 @@ def run(repo: Repo, chk: Check):
                 fe = FnEval(repo, g, cf, ov)
                 v = fe.eval(c, tid)
                 verdicts[tv] = None if v is TOP or not v else all(bool(x) for x in v)
-            chk.judge("R07.c", "generate_code:compile_function:the end label is terminated also under tail-call optimisation", verdicts.get(True) is True and verdicts.get(False) is True,
+            chk.judge(R, "generate_code:compile_function:the end label is terminated also under tail-call optimisation", verdicts.get(True) is True and verdicts.get(False) is True,
                       f"with an early return present, the terminator after the end label is emitted: without tail call {verdicts.get(False)}, with tail call {verdicts.get(True)} "
                       f"(condition {norm(c)}): an early 'return' jumps to the end label and falls into the next function", {"condition": norm(c), "verdicts": {str(k): v for k, v in verdicts.items()}}, wherec)
+
+
+# ---------------------------------------------------------------------- R07.c (regions are not cut after they were compiled)
+def r07c_tail_kept(repo: Repo, chk: Check, R="R07.c"):
+    """After compile_function has closed a region with its terminator, no later pass takes instructions off its end."""
+    g = repo.mod("generate_code")
+    cp = repo.mod("compile_pass")
+    n = 0
+    for m, quals in ((g, [q for q in g.funcs if q.startswith("CompilerPassGatherCode.")]), (cp, [q for q in cp.funcs if q.startswith("FunctionData.")])):
+        for q in quals:
+            fn = m.funcs[q]
+            cfg, rd = fn_ctx(fn)
+
+            def is_region(e, at, depth=0):
+                """<x>.code of a FunctionData (func.code, self.code inside FunctionData) or a local bound to it"""
+                if isinstance(e, ast.Attribute) and e.attr == "code" and not (m is g and norm(e) == "self.code"):
+                    return True
+                if isinstance(e, ast.Name) and depth < 4:
+                    ids = live_ids(cfg, at)
+                    ds = rd.at(ids[0], e.id) if ids else []
+                    return bool(ds) and all(d.kind == "assign" and not d.index and d.value is not None and is_region(d.value, cfg.nodes[d.node].ast, depth + 1) for d in ds)
+                return False
+
+            def from_end(ix):
+                if isinstance(ix, ast.UnaryOp) and isinstance(ix.op, ast.USub) and isinstance(ix.operand, ast.Constant):
+                    return True
+                if isinstance(ix, ast.Slice) and ix.upper is None and ix.lower is not None:
+                    return True
+                return False
+            for st in ast.walk(fn):
+                cut = None
+                if isinstance(st, ast.Delete):
+                    for t in st.targets:
+                        if isinstance(t, ast.Subscript) and is_region(t.value, st) and from_end(t.slice):
+                            cut = norm(st)
+                elif isinstance(st, ast.Expr) and isinstance(st.value, ast.Call) and isinstance(st.value.func, ast.Attribute) and st.value.func.attr == "pop" \
+                        and is_region(st.value.func.value, st) and (not st.value.args or from_end(st.value.args[0])):
+                    cut = norm(st)
+                elif isinstance(st, ast.Assign) and len(st.targets) == 1 and isinstance(st.targets[0], ast.Subscript) and is_region(st.targets[0].value, st) \
+                        and from_end(st.targets[0].slice) and isinstance(st.value, (ast.List, ast.Tuple)) and not st.value.elts:
+                    cut = norm(st)
+                if cut:
+                    n += 1
+                    chk.bad(R, f"{m.name}:{q}:a compiled region keeps its last instruction",
+                            f"'{cut[:60]}' takes the last instruction off a function's code after compile_function closed it with its terminator: when the body can still reach "
+                            f"the end (an early return, a loop that is left by break) the function runs into whatever is emitted next", {"statement": cut[:120]}, f"{m.path}:{st.lineno} in {q}")
+    if n == 0:
+        chk.ok(R, "generate_code/compile_pass:no pass removes instructions from the end of a compiled region", None)
